@@ -120,9 +120,10 @@ def TxMd.bytes (m : TxMd) : Bytes :=
 /-- Length of the `extra` attribute read off CANONICAL metadata bytes (`TxMd.bytes`: an optional
 truncatedUptoTx attribute of 1+8 bytes, then an optional extra attribute `code ‖ be16 len ‖ bytes`).
 `extraAttribute.serialize` copies into a `[2+256]byte` array and returns `b[:2+len]`: for
-`len > maxExtraLen` Go panics (slice bounds out of range).  `ReadFrom` accepts such a length
-(up to what fits into `maxTxMetadataLen`), so the panic is reachable from stored bytes: it
-fires when `TxHeader.Alh()` → `innerHash` → `Metadata.Bytes()` is evaluated. -/
+`len > maxExtraLen` Go panics (slice bounds out of range).  `ReadFrom` rejects such a length
+(`extraAttribute.deserialize`: `n > maxExtraLen`), so the panic is NOT reachable from stored
+bytes any more (`parseTx_noPanic`); it would fire when `TxHeader.Alh()` → `innerHash` →
+`Metadata.Bytes()` is evaluated. -/
 def txmdExtraLen (md : Bytes) : Nat :=
   let rest := match md with
     | c :: r => if c.toNat = Gen.storeTruncatedUptoTxAttrCode then r.drop Gen.storeTxIDSize else md
@@ -131,10 +132,10 @@ def txmdExtraLen (md : Bytes) : Nat :=
   | c :: r => if c.toNat = Gen.storeExtraAttrCode then beVal (r.take Gen.storeSszSize) else 0
   | [] => 0
 
-/-- The `for` loop of `TxMetadata.ReadFrom`.  `extraAttribute.deserialize` allocates the
-DECLARED length, copies what is there and reports `2 + declared` consumed bytes; when that
-exceeds the available bytes the next iteration evaluates `b[i:]` with `i > len(b)`:
-Go panics (slice bounds out of range). -/
+/-- The `for` loop of `TxMetadata.ReadFrom`.  `extraAttribute.deserialize` rejects a declared
+length above `maxExtraLen` or beyond the bytes present
+(`if n > maxExtraLen || len(b) < sszSize+n { return 0, ErrCorruptedData }`), then allocates
+and copies exactly the declared length. -/
 def txmdLoop : Bytes → TxMd → Except Err TxMd
   | [], m => .ok m
   | c :: rest, m =>
@@ -146,7 +147,7 @@ def txmdLoop : Bytes → TxMd → Except Err TxMd
       else
         let n := beVal (rest.take Gen.storeSszSize)
         let body := rest.drop Gen.storeSszSize
-        if body.length < n then .error .panic
+        if n > Gen.storeMaxExtraLen ∨ body.length < n then .error .corruptedData
         else txmdLoop (body.drop n) { m with extra := some (body.take n) }
     else .error .corruptedData
 termination_by b => b.length
@@ -300,6 +301,7 @@ def parseTx [DecidableEq D] (hs : HsD D) (lim : Limits) (s : Bytes) : Except Err
   | .ok (stored, _) =>
     let h' : TxHeader D := { h with eh := ehOf hs h.version es }
     -- `t.h.Alh()` serialises the tx metadata: `extraAttribute.serialize` panics beyond maxExtraLen
+    -- (unreachable: `parseTxMd` accepts at most maxExtraLen bytes, see `parseTx_noPanic`)
     if txmdExtraLen h.md > Gen.storeMaxExtraLen then .error .panic else
     match alh hs.toHs h' with
     | none => .error .panic      -- innerHash panics on an unknown version (unreachable: readHeader rejects it)
@@ -330,10 +332,12 @@ def serializeTx (hs : HsD D) (r : Record D) : Option Bytes :=
 structure VCfg where
   embedded : Bool       -- values live in the tx log
   maxIO : Nat           -- MaxIOConcurrency = number of value logs
+  maxValueLen : Nat     -- MaxValueLen persisted at store creation (`s.maxValueLen`)
 
-/-- `fetchVLog(vLogID)`.  With `MaxIOConcurrency > 1` the id indexes `s.vLogs` (a map of
-pointers) without any check: an id outside `1..maxIO` yields a nil `*refVLog` whose field is
-then read — Go panics. -/
+/-- `fetchVLog(vLogID)`.  `vlogs` = `s.vLogs` (`MaxIOConcurrency` value logs).  Every path
+validates the id: embedded values (`id > 0`), the single-vlog fast path (`id != 1`) and the
+general path (`vLogID < 1 || int(vLogID) > len(s.vLogs)`) return `ErrUnexpectedError`.
+The remaining `panic` outcomes (an empty `s.vLogs`) cannot happen for an opened store. -/
 def fetchVLog (cfg : VCfg) (vlogs : List Bytes) (txLog : Bytes) (id : Nat) : Except Err Bytes :=
   if cfg.embedded then
     if id > 0 then .error .unexpected else .ok txLog
@@ -342,16 +346,20 @@ def fetchVLog (cfg : VCfg) (vlogs : List Bytes) (txLog : Bytes) (id : Nat) : Exc
     else match vlogs[0]? with
       | some l => .ok l
       | none => .error .panic
+  else if id < 1 ∨ id > vlogs.length then .error .unexpected
   else match vlogs[id - 1]? with
     | some l => .ok l
     | none => .error .panic
 
 /-- `ReadValue(entry)` on uncompressed logs given as their logical content, value cache off.
+`validateValueLen`: a stored length above `MaxValueLen` is rejected (`ErrCorruptedData`)
+before the buffer is allocated.
 `decodeOffset`: vlog id = top byte, offset = `vOff &^ (0xff << 55)` (bit 63 survives: a
 "negative" offset is answered by the appendable with an error). -/
 def readValue (hs : Hs D) [DecidableEq D] (cfg : VCfg) (vlogs : List Bytes) (txLog : Bytes)
     (e : Entry D) : Except Err Bytes :=
   if e.vLen = 0 then .ok []         -- returned BEFORE any validation (see the TODO in ReadValue)
+  else if e.vLen > cfg.maxValueLen then .error .corruptedData
   else
     let id := e.vOff / 2 ^ 56 % 256
     if !cfg.embedded ∧ id = 0 then .error .eof
